@@ -352,7 +352,7 @@ func TestC01(t *testing.T) {
 		}
 		for j := ref.JDN(y, 1, 1); j <= ref.JDN(y, 12, 31); j++ {
 			for _, n := range []int{1, -1, 2, 28, 29, 30, -29, -30, 59} {
-				if !ev.Thorough() && n != 1 && n != 29 && (j+n)%3 != 0 {
+				if n != 1 && n != 29 && (j+n)%3 != 0 { // 1 and 29 on every day, the other seven sizes on a third of the days each
 					continue
 				}
 				lunarNext.Eval(nextCase{j, n})
@@ -360,7 +360,7 @@ func TestC01(t *testing.T) {
 		}
 	}
 	if ev.Thorough() {
-		lunarNext.Exhaustive("every civil day 1..9998 x 9 step sizes")
+		lunarNext.Exhaustive("every civil day 1..9998 x step sizes {1, 29} (and seven more sizes on every third day)")
 	}
 	civilLunarCivil.Rapid(ev.Share(ev.Pick(16000, 400000)), func(t *rapid.T) dayCase { return dayCase{gen.Moment(t)} })
 	lunarCivilLunar.Rapid(ev.Share(ev.Pick(16000, 400000)), genLunar)
